@@ -391,6 +391,10 @@ type series struct {
 var floatPool = []float64{0, 1, -1, 2, 3, 0.5, -0.5, 1.5, 2.5, 0.1, 0.2, 0.3, -0.1, 10, 100, -100, 1e9, -1e9,
 	1e-9, 3.141592653589793, 2.718281828459045, 1e300, -1e300, 5e-324, 123456789.125, 7, 42, -42}
 
+// top/bottom order two points with one timestamp and the values -0 / +0 by a sort
+// detail: no negative zero there
+var noNegZero bool
+
 func genSeries(r *h.Rand, n int, isInt, asc, special bool) series {
 	var s series
 	t := r.Range(-50, 1000)
@@ -437,7 +441,7 @@ func genSeries(r *h.Rand, n int, isInt, asc, special bool) series {
 		}
 		if special && r.Chance(0.06) {
 			f = h.Pick(r, []float64{math.NaN(), math.Inf(1), math.Inf(-1), math.Copysign(0, -1)})
-		} else if r.Chance(0.03) {
+		} else if !noNegZero && r.Chance(0.03) {
 			f = math.Copysign(0, -1)
 		}
 		s.fvals = append(s.fvals, f)
@@ -526,11 +530,7 @@ func genPlain(r *h.Rand) string {
 		s := genSeries(r, pickLen(r, 1), isInt, true, false)
 		return s.line("pct", isInt, p[0], p[1])
 	case 6:
-		min := 1
-		if !isInt {
-			min = 2 // a one-point float median is the recorded finding `single-point-time`
-		}
-		s := genSeries(r, pickLen(r, min), isInt, true, false)
+		s := genSeries(r, pickLen(r, 1), isInt, true, false)
 		return s.line("median", isInt)
 	case 7:
 		s := genSeries(r, pickLen(r, 1), isInt, true, false)
@@ -542,31 +542,54 @@ func genPlain(r *h.Rand) string {
 		s := genSeries(r, pickLen(r, 1), isInt, true, false)
 		return s.line("distinct", isInt)
 	case 10:
+		noNegZero = true
 		s := genSeries(r, pickLen(r, 1), isInt, true, false)
+		noNegZero = false
 		return s.line("top", isInt, r.Range(1, 6))
 	case 11:
+		noNegZero = true
 		s := genSeries(r, pickLen(r, 1), isInt, true, false)
+		noNegZero = false
 		return s.line("bottom", isInt, r.Range(1, 6))
 	case 12:
 		// integral without GROUP BY time
-		asc := r.Chance(0.8)
-		s := genSeries(r, pickLen(r, 0), isInt, asc, false)
-		st, en := int64(math.MinInt64+2), int64(math.MaxInt64-1)
-		if r.Chance(0.3) {
-			st, en = -100, 1_000_000
-		}
-		return s.line("integral", isInt, h.Pick(r, units), 0, 0, st, en, b2i(asc))
+		return genIntegral(r, isInt, true, false)
 	default:
 		// integral with GROUP BY time(dur, off)
-		asc := r.Chance(0.8)
-		s := genSeries(r, pickLen(r, 0), isInt, asc, false)
-		dur := h.Pick(r, []int64{1, 2, 5, 10, 20, 60, 100, 1000, 10_000_000_000})
-		off := int64(0)
-		if r.Chance(0.3) {
-			off = r.Range(0, dur-1)
-		}
-		return s.line("integral", isInt, h.Pick(r, units), dur, off, -1000, 1_000_000_000_000, b2i(asc))
+		return genIntegral(r, isInt, true, true)
 	}
+}
+
+func genIntegral(r *h.Rand, isInt, asc, windowed bool) string {
+	s := genSeries(r, pickLen(r, 0), isInt, asc, false)
+	if !windowed {
+		st, en := int64(math.MinInt64+2), int64(math.MaxInt64-1)
+		if r.Chance(0.3) {
+			st, en = -10_000_000_000_000, 10_000_000_000_000
+		}
+		return s.line("integral", isInt, h.Pick(r, units), 0, 0, st, en, b2i(asc))
+	}
+	// window sizes around the spacing of the series, so that segments stay inside a
+	// window, cross into the next one, or (rarely) jump over one
+	span := int64(10)
+	if len(s.times) >= 2 {
+		d := s.times[1] - s.times[0]
+		if d < 0 {
+			d = -d
+		}
+		if d > 0 {
+			span = d
+		}
+	}
+	dur := span * h.Pick(r, []int64{1, 2, 3, 5, 8, 20})
+	if r.Chance(0.15) {
+		dur = h.Pick(r, []int64{1, 2, 7, 10, 100})
+	}
+	off := int64(0)
+	if r.Chance(0.3) {
+		off = r.Range(0, dur-1)
+	}
+	return s.line("integral", isInt, h.Pick(r, units), dur, off, -10_000_000_000_000, 10_000_000_000_000, b2i(asc))
 }
 
 func gen(r *h.Rand, tier string, emit func([]string)) {
@@ -604,8 +627,10 @@ func gen(r *h.Rand, tier string, emit func([]string)) {
 		"bottom i 2 1,2,3,4 5,1,1,9",
 		"top i 5 1,2 3,4",
 		"integral f 1 0 0 -9223372036854775806 9223372036854775806 1 0,10,20 " + fbits(0) + "," + fbits(10) + "," + fbits(0),
-		"integral i 1 10 0 -1000 1000000 1 0,20 0,20",
-		"integral f 1 10 0 -1000 1000000 1 0,20 " + fbits(0) + "," + fbits(20),
+		"integral i 1 10 0 -1000 1000000 1 0,15 0,15",
+		"integral f 1 10 0 -1000 1000000 1 0,15 " + fbits(0) + "," + fbits(15),
+		"integral i 1 20 0 -1000 1000000 1 10,15,20,30 20,10,0,-10",
+		"integral i 1 20 0 -1000 1000000 1 10,15,25,30 20,10,0,-10",
 	})
 	for c := 0; c < nCases; c++ {
 		var ops []string
@@ -615,7 +640,7 @@ func gen(r *h.Rand, tier string, emit func([]string)) {
 		emit(ops)
 	}
 	// cases that may reach the recorded findings (kept apart so that they cannot
-	// mask anything else): mode, and one-point float median
+	// mask anything else): mode ties, integral over descending input
 	nMode := nCases / 3
 	for c := 0; c < nMode; c++ {
 		var ops []string
@@ -626,11 +651,11 @@ func gen(r *h.Rand, tier string, emit func([]string)) {
 		}
 		emit(ops)
 	}
-	for c := 0; c < 3; c++ {
+	// integral over a series read in descending time order (ORDER BY time DESC)
+	for c := 0; c < nCases/15+1; c++ {
 		var ops []string
-		for i := 0; i < 20; i++ {
-			s := genSeries(r, 1, false, true, false)
-			ops = append(ops, s.line("median", false))
+		for i := 0; i < 40; i++ {
+			ops = append(ops, genIntegral(r, r.Chance(0.5), false, r.Chance(0.6)))
 		}
 		emit(ops)
 	}
